@@ -1,17 +1,7 @@
-# Table of claimed properties (read by mkmanifest.py).
-CLAIMS = {
-    "C20": {
-        "text": "Theorems (Coq, all kinds of inheritable setting, all single-inheritance class forests, all histories of "
-                "set/unset/invalid operations): effective value = own, else nearest ancestor's, else default; unset follows the "
-                "next level; class/instance operations are local; rejected operations change nothing and exactly the invalid "
-                "values are rejected; per-call override wins; native-anim limit is global.  The model (Python attribute lookup "
-                "over class/instance dictionaries, operations written as the code performs them) is tied to the code by a "
-                "differential correspondence on generated forests and histories, judged inside Coq against both the model and "
-                "the history-level specification.",
-        "design_ref": "4/C20",
-        "note": "Trusts: Coq kernel+VM; the hand-written model of Python attribute resolution (single inheritance); the "
-                "correspondence harness. Closed under the global context (no axioms).",
-        "technique": "Coq proof by induction over histories (representation invariant) + differential correspondence of the executable model",
-    },
-}
+# Claimed properties: one JSON file per property in harness/claims.d/<ID>.json
+# with keys text, design_ref, note, technique (and optionally category).
+import json as _json
+from pathlib import Path as _Path
+
+CLAIMS = {p.stem: _json.loads(p.read_text()) for p in sorted((_Path("/verif/harness/claims.d")).glob("C*.json"))}
 PENDING = {}
